@@ -11,7 +11,7 @@ fn main() {
     let cfg = RunCfg {
         api: Api { shape: Shape::Stream, with: false }, rev: false, limit: None, strat: Strat::NonInterruptible,
         include: true, failing: vec![], yields: vec![0; n], abort_after: None, instant: vec![], coop: false,
-        drop_sender: false, pre_interrupted: 0, on_clone: false, unwind: vec![], rev_again: 0,
+        drop_sender: false, pre_interrupted: 0, on_clone: false, unwind: vec![], rev_again: 0, opts_order: 0,
     };
     let schedule = vec![
         (0, Act::Poll), (1, Act::Poll), (0, Act::Complete(0)), (1, Act::Complete(0)), (0, Act::PollNesting(1, 1)),
